@@ -1338,6 +1338,14 @@ class SimTime:
 # --------------------------------------------------------------------------
 
 
+# "full": a case starts from a pristine psutil (every memoised function
+# cleared).  "documented-only": used between the prelude and the main part of
+# one case (runner.Property(prelude=True)): only the state psutil is known /
+# documented to keep across calls is reset, so that anything else a change
+# under test starts remembering stays visible to the main part.
+RESET_MODE = "full"
+
+
 def reset_psutil_state(psutil, keep_cpu_last=False):
     import psutil._common as C
     import psutil._pslinux as L
@@ -1356,6 +1364,8 @@ def reset_psutil_state(psutil, keep_cpu_last=False):
     C._wn.cache_clear()
     PX.get_terminal_map.cache_clear()
     L.set_scputimes_ntuple.cache_clear()
+    if RESET_MODE != "full":
+        return
     # any other memoised module-level function (also ones a change under test
     # introduces): a case must not inherit answers from the previous case,
     # else its replay file would not reproduce on its own
